@@ -50,7 +50,6 @@ func (b astBuilder) opTk(t token.Type, lit string) token.Token {
 	return tok
 }
 
-
 func callLevel(n *ir.Node) bool {
 	switch n.K {
 	case ir.Ident, ir.Num, ir.Str, ir.Tpl, ir.Bool, ir.Null, ir.Call, ir.Member, ir.Index, ir.Array, ir.Object, ir.Func:
